@@ -929,8 +929,8 @@ package engine
 //@   requires clOK(cl)
 //@   requires typing: dmap(d)[boxed(global("github.com/uber-go/gopatch/internal/engine.fileMatchKey"))] != nil ==> wfFileMatch(dmap(d)[boxed(global("github.com/uber-go/gopatch/internal/engine.fileMatchKey"))])
 //@   at call engine.Replacer.Replace assert [C03] each-site-with-its-own-bindings: arg1 == m.data && arg3 == m.region.Pos
-//@   at call (engine.ImportsReplacer).Replace assert [C03,C08,C11] the-imports-are-generated-from-the-bindings-of-the-file-not-of-a-site: arg0 == r.Imports && arg1 == d0 && arg3 == fd.File
-//@   at call (engine.ImportsReplacer).Cleanup assert [C03,C08,C11] the-imports-are-cleaned-up-under-the-bindings-of-the-file: arg0 == r.Imports && arg1 == d0 && arg2 == fd.File && arg3 == ret("(engine.ImportsReplacer).Replace", 0, 0)
+//@   at call (engine.ImportsReplacer).Replace assert [C03,C06,C08,C09,C11] the-imports-are-generated-from-the-bindings-of-the-file-not-of-a-site: arg0 == r.Imports && arg1 == d0 && arg3 == fd.File
+//@   at call (engine.ImportsReplacer).Cleanup assert [C03,C06,C08,C09,C11] the-imports-are-cleaned-up-under-the-bindings-of-the-file: arg0 == r.Imports && arg1 == d0 && arg2 == fd.File && arg3 == ret("(engine.ImportsReplacer).Replace", 0, 0)
 //@   requires recorded-slots-are-current: restructured == noneRestructured()
 //@   at call engine.Replacer.Replace set sitesReplaced = sitesReplaced + 1
 //@   at call (reflect.Value).Set assert [C03,C05] the-slot-written-is-the-slot-that-matched: m.index >= 0 ==> !restructured[m.parent]
